@@ -269,7 +269,7 @@ func readXZPastErrors(data []byte, dictCap int, bufSize int) (out []byte, err er
 
 // C04: a damaged stream never decodes "successfully" to different content.
 func C04(c *hx.Ctx) {
-	c.Rule = "structural part: every single-field edit that TLC classifies from XzDamage (MustReject / Benign / Weak), applied to every block of every base stream (library-, reference- and xz-utils-written; all check types incl. none) with the enclosing CRC-32 re-sealed; byte part: every single-bit flip at every position, bursts <= 32 bits, one-byte insertions and deletions at every offset of every base stream that carries a check; oracle = error, or clean end with identical content; MustReject edits must error; non-trivial = modification outside the check field"
+	c.Rule = "structural part: every single-field edit that TLC classifies from XzDamage (MustReject / Benign / Weak), applied to every block of every base stream (library-, reference- and xz-utils-written; all check types incl. none) with the enclosing CRC-32 re-sealed; byte part: every single-bit flip at every position, bursts <= 32 bits, one-byte insertions and deletions at every offset of every base stream that carries a check; oracle = error, or clean end with identical content; MustReject edits must error; non-trivial = modification outside the check field; edits include high-order-bit changes and non-zero padding in over-long headers; structural edits are read with two buffer sizes (777, 1); a quarter of the byte-level modifications are read on after errors"
 	c.Assumptions = []string{"TLC (XzDamage classification over XzFormat)", "internal/ref serialiser for re-sealing; ref's own verdict must agree with the classification (else exit 2)", "CRC-32 collisions of payload edits (2^-32 per case)"}
 	c.Exhaustive = true
 	// classification table from TLC
